@@ -85,6 +85,29 @@ Section H.
     | Multi g ps :: r => run_steps files (snd (run_mp g k files ps)) r
     end.
 
+  (* histories in which files may also CHANGE between runs *)
+  Inductive event := Run (s : step) | Change (p : Z) (c : content).
+
+  Definition set_file (files : Z -> content) (p : Z) (c : content)
+    : Z -> content := fun q => if q =? p then c else files q.
+
+  Fixpoint run_events (files : Z -> content) (k : carried) (h : list event)
+    : (Z -> content) * carried :=
+    match h with
+    | [] => (files, k)
+    | Run s :: r => run_events files (run_steps files k [s]) r
+    | Change p c :: r => run_events (set_file files p c) k r
+    end.
+
+  (* every change in the history is of the allowed kind *)
+  Fixpoint changes_ok (ext : content -> content -> Prop)
+           (files : Z -> content) (h : list event) : Prop :=
+    match h with
+    | [] => True
+    | Run _ :: r => changes_ok ext files r
+    | Change p c :: r => ext (files p) c /\ changes_ok ext (set_file files p c) r
+    end.
+
   Definition step_results (files : Z -> content) (k : carried) (s : step)
     : list results :=
     match s with
